@@ -357,6 +357,17 @@ def real_optimal(net, kind, factor, outer, cap, via="function"):
     if via == "function":
         ssa = pb.optimize_optimal(inputs, output, sd, minimize=minimize, cost_cap=cap,
                                   search_outer=outer, use_ssa=True)
+    elif via == "function-nosimplify":
+        # under the property's guard there is nothing to pre-simplify, so skipping the simplification pass
+        # must not change the optimum
+        ssa = pb.optimize_optimal(inputs, output, sd, minimize=minimize, cost_cap=cap,
+                                  search_outer=outer, use_ssa=True, simplify=False)
+    elif via == "class-nosimplify":
+        opt = pb.OptimalOptimizer(minimize=minimize, cost_cap=cap, search_outer=outer, simplify=False)
+        ssa = opt.ssa_path(inputs, output, sd)
+    elif via == "class-search":
+        opt = pb.OptimalOptimizer(minimize=minimize, cost_cap=cap, search_outer=outer)
+        ssa = opt.search(inputs, output, sd).get_ssa_path()
     elif via == "class":
         opt = pb.OptimalOptimizer(minimize=minimize, cost_cap=cap, search_outer=outer)
         ssa = opt.ssa_path(inputs, output, sd)
@@ -502,7 +513,8 @@ def check_net(ctx, drv, net, rng, spy_tables=False, light=False):
             for cap in (rng.sample(WIDE_CAPS, 2) if light else caps):
                 if ctx.time_left() < 5 or ctx.violations >= 1:
                     return
-                via = rng.choice(["function", "function", "class", "linear"])
+                via = rng.choice(["function", "function", "class", "linear", "function-nosimplify",
+                                  "class-nosimplify", "class-search"])
                 case = {"net": netj, "obj": [kind, factor], "outer": outer, "cap": cap, "via": via}
                 ctx.case(case, nontrivial=(n >= 4 and worst > best))
                 ctx.count("obj:" + kind)
